@@ -351,6 +351,56 @@ func c08Reference(name string, safe bool, args []*variants.Variant, before time.
 			return false
 		}
 		if !homog {
+			// mixed lists: when every argument is a non-NaN number the result must be EITHER what the
+			// documented comparison gives when folded over the arguments in written order (current
+			// result as first operand) OR an argument that is numerically the true extremum
+			allNum := true
+			for _, a := range args {
+				f, ok := numericAsFloat(a)
+				if !ok || math.IsNaN(f) {
+					allNum = false
+				}
+			}
+			if allNum {
+				op := "More"
+				if name == "Max" {
+					op = "Less"
+				}
+				fold, foldState := 0, "value"
+				for i := 1; i < n && foldState == "value"; i++ {
+					ref := refBinary(op, safe, args[fold], args[i])
+					switch {
+					case ref.kind == "error":
+						foldState = "error"
+					case ref.kind != "value":
+						foldState = "open"
+					case ref.val == true:
+						fold = i
+					}
+				}
+				ext := 0
+				for i := 1; i < n; i++ {
+					fi, _ := numericAsFloat(args[i])
+					fe, _ := numericAsFloat(args[ext])
+					if (name == "Min" && fi < fe) || (name == "Max" && fi > fe) {
+						ext = i
+					}
+				}
+				if foldState == "open" {
+					return c08Open
+				}
+				return c08Expect{kind: map[string]string{"value": "check", "error": "error-or-check"}[foldState], note: "comparison not defined for the argument types", check: func(r *variants.Variant) string {
+					fr, ok := numericAsFloat(r)
+					fe, _ := numericAsFloat(args[ext])
+					if ok && oneOf(r) && fr == fe {
+						return ""
+					}
+					if foldState == "value" && r.Type() == args[fold].Type() && payloadEq(r.AsObject(), args[fold].AsObject()) {
+						return ""
+					}
+					return "= " + variantStr(r) + ", expected " + variantStr(args[ext]) + " (true extremum) or " + variantStr(args[fold]) + " (comparisons folded in written order)"
+				}}
+			}
 			return c08Expect{kind: "open-or-check", check: func(r *variants.Variant) string {
 				if !oneOf(r) {
 					return "= " + variantStr(r) + ", which is not one of the arguments"
@@ -453,7 +503,7 @@ func c08Judge(exp c08Expect, r *variants.Variant, err error, pv interface{}) str
 			return "returns " + variantStr(r) + " (" + exp.note + ": error expected)"
 		}
 		return ""
-	case "open-or-check":
+	case "open-or-check", "error-or-check":
 		if err != nil {
 			return ""
 		}
@@ -614,7 +664,7 @@ func init() {
 		Level: "model_checking",
 		Rule: "all 37 registered functions x every argument list of length 0..3 over a 16-value pool (every variant type) and of length 4..8 over {1,'a',null}, both managers, called directly through FindByName(name).Calculate and (lists of length 0..2 and the arity sweep) through expressions Name(x0,..) in three letter cases; every name in 4 spellings for lookup; " +
 			"oracle: reference function table (arity, fixed result type, value via math.*/time.* on the manager-converted argument, selection functions return the selected argument, clock/random inside their intervals), exactly one of result/error, no escaping panic, arguments unchanged; non-trivial = calls whose outcome the table defines",
-		Assume: []string{"argument conversion uses the manager under test (C07)", "TZ=UTC", "Sqr may be square or square root; Date's 7th field may be milli- or nanoseconds; Empty is only pinned for Null and non-empty values; Min/Max on mixed or Null-containing lists: an error or one of the arguments"},
+		Assume: []string{"argument conversion uses the manager under test (C07)", "TZ=UTC", "Sqr may be square or square root; Date's 7th field may be milli- or nanoseconds; Empty is only pinned for Null and non-empty values; Min/Max on all-numeric mixed-type lists: the numerically true extremum or the result of folding the documented comparison in written order; on other mixed or Null-containing lists: an error or one of the arguments"},
 		Spaces: func(tier string) []fw.Space {
 			pool := c08ArgPool()
 			lp := c08LongPool()
